@@ -622,9 +622,16 @@ def dict_resolver(env):
 
             try:
                 co = codefind.find_code(*hierarchy, module=module or "__main__")
-            except (KeyError, ImportError, TypeError, ValueError):
+            except (
+                KeyError,
+                ImportError,
+                TypeError,
+                ValueError,
+                AttributeError,
+            ):
                 # KeyError: no such function in the module; the others
-                # are raised when the module itself cannot be imported
+                # are raised when the module itself cannot be imported,
+                # or has no source file (AttributeError: a builtin module)
                 raise CodeNotFoundError(
                     f"Cannot find a function for the reference '{x}'."
                     " Try calling `ptera.refstring` on the function you want"
